@@ -3,7 +3,7 @@
    of the lock-delimited phases), plus the lock discipline of hub.go itself. *)
 From Coq Require Import List Arith Bool.
 Import ListNotations.
-From TF Require Import Model.Hub Proofs.Hub Gen.HubLocks Proofs.HubLocks.
+From TF Require Import Model.Hub Proofs.Hub Proofs.HubLeak Gen.HubLocks Proofs.HubLocks.
 
 (* no interleaving ever sends on a closed channel: no handler panics *)
 Theorem C11_no_panic : forall cap ops, npanic (fst (run (init cap) ops)) = 0.
@@ -62,6 +62,47 @@ Print Assumptions C11_left_not_listed.
 Theorem C11_invariant : forall cap ops, HI (fst (run (init cap) ops)).
 Proof. intros cap ops. apply hi_run. apply hi_init. Qed.
 Print Assumptions C11_invariant.
+
+(* "no routing state leaks once a session is empty", for every history of the hub:
+   (i) in a reachable state with no remove() pending, no attached session map is empty;
+   (ii) an empty attached map is collected by the last phase of the pending remove();
+   (iii) every entry of the routing index names an open connection that is an entry of its
+         session's attached map, so (iv) a session whose map is gone has no index entry *)
+Theorem C11_no_empty_session_when_quiescent : forall cap ops sid g,
+  let h := fst (run (init cap) ops) in
+  rms h = [] -> att_gen sid (maps h) = Some g -> members g (conns h) <> [].
+Proof. exact no_empty_session_when_quiescent. Qed.
+Print Assumptions C11_no_empty_session_when_quiescent.
+
+Theorem C11_empty_session_is_collected : forall h c x g,
+  HI h -> find_conn c (conns h) = Some x -> (exists r, find_rm c (rms h) = Some r /\ rphase r = 2) ->
+  att_gen (csid x) (maps h) = Some g -> members g (conns h) = [] ->
+  att_gen (csid x) (maps (fst (step h (Rm3 c)))) = None.
+Proof. exact empty_session_is_collected. Qed.
+Print Assumptions C11_empty_session_is_collected.
+
+Theorem C11_index_entries_live : forall cap ops s p c,
+  let h := fst (run (init cap) ops) in
+  In (s, p, c) (bypeer h) ->
+  exists x g, In x (conns h) /\ cid x = c /\ csid x = s /\ cpeer x = p /\ cgen x = Some g /\
+              att_gen s (maps h) = Some g /\ cclosed x = false.
+Proof. exact index_entries_live. Qed.
+Print Assumptions C11_index_entries_live.
+
+Theorem C11_no_index_entry_without_session : forall cap ops s,
+  let h := fst (run (init cap) ops) in
+  att_gen s (maps h) = None -> forall p c, ~ In (s, p, c) (bypeer h).
+Proof. exact no_index_entry_without_session. Qed.
+Print Assumptions C11_no_index_entry_without_session.
+
+(* non-vacuity: a history after which a session is attached with an entry and nothing is
+   pending; and one in which the last peer's remove() has run: map and index are gone *)
+Example C11_no_leak_example :
+  let h1 := fst (run (init 4) [Add 0 0 1; Add 0 1 2; Rm1 1; Rm2 1; Rm3 1]) in
+  let h2 := fst (run (init 4) [Add 0 0 1; Add 0 1 2; Rm1 1; Rm2 1; Rm3 1; Rm1 2; Rm2 2; Rm3 2]) in
+  (rms h1 = [] /\ att_gen 0 (maps h1) = Some 0 /\ members 0 (conns h1) = [2] /\ bypeer h1 = [(0, 1, 2)]) /\
+  (rms h2 = [] /\ att_gen 0 (maps h2) = None /\ bypeer h2 = []).
+Proof. vm_compute. repeat split. Qed.
 
 (* non-vacuity / regression: the two schedules that broke the unrepaired hub *)
 Example C11_broadcast_vs_remove_now_safe :
